@@ -187,3 +187,14 @@ PROPS["C07"] = dict(
     assumptions=["ONNX opset-13 operator documents as transcribed in spec/OpShape.tla"],
     stages=lambda tier: [mc("shape-ops", "MC_C07.tla", "MC_C07_%s.cfg" % tier, min_cases=20000)],
 )
+
+PROPS["C08"] = dict(
+    rule="BFS: Transpose every permutation of every shape rank 1..4 extents 1..3 (+invalid perms); Concat 1..3 inputs x every axis in both "
+         "spellings x (mis)matching extents; Slice rank 1..2 (3 thorough) extents 1..4, every (start,end) in [-dim-2,dim+2]^2 x steps "
+         "{-2,-1,1,2,3} x axis spellings x optional-input forms, pairs of axes, INT64/INT32 MAX/MIN ends, invalid requests; Gather every axis x "
+         "index tensors rank 0..2 with every in-range value and one out-of-range; Expand every (input,target) pair of rank <= 3; dtype "
+         "sweep; non-trivial = expected tensor with more than one element or expected error",
+    assumptions=["ONNX opset-13 operator documents as transcribed in spec/OpIndex.tla",
+                 "Slice: only non-negative, unclamped, positive-step requests are must-compute; others may be refused but never answered differently"],
+    stages=lambda tier: [mc("index-ops", "MC_C08.tla", "MC_C08_%s.cfg" % tier, min_cases=100000)],
+)
